@@ -21,7 +21,9 @@ type c11Case struct {
 	Corpus corpusSel `json:"corpus"`
 	X      recipe    `json:"x"`
 	Ts     []xform   `json:"ts,omitempty"`  // optional presentation changes applied first (decoration, case, blank lines ...)
-	Pad    int       `json:"pad,omitempty"` // a first line of exactly Pad ASCII bytes (newline included) in front of X: moves every later byte offset
+	Pad    int       `json:"pad,omitempty"`
+	// Wrap > 0: the whole text is re-wrapped at this width first (every word can end up first on its line).
+	Wrap int `json:"wrap,omitempty"` // a first line of exactly Pad ASCII bytes (newline included) in front of X: moves every later byte offset
 }
 
 // c11Pad returns one filler line of exactly n bytes (n >= 2), newline included.
@@ -43,6 +45,9 @@ func c11Gen(t *rapid.T) interface{} {
 	c.X = genRecipe(t, c.Thr)
 	if !c.Corpus.Full {
 		c.Corpus = smallCorpusAround(t, c.X.docs())
+	}
+	if lib.IntN(t, 0, 3, "rewrap") == 0 {
+		c.Wrap = lib.IntN(t, 20, 110, "wrapWidth")
 	}
 	if lib.IntN(t, 0, 1, "withXforms") == 0 {
 		c.Ts = genXforms(t, []string{"upper", "altcase", "indent", "blankline", "decorate", "trailing", "crlf", "multiblank", "dotdot", "dotdot", "dotdash", "dotdash", "nbsp", "nbsp", "nbsp"}, 2)
@@ -111,11 +116,31 @@ func c11Check(ci interface{}) lib.Outcome {
 	}
 	cl := classifierFor(c.Thr, c.Corpus)
 	x := c.X.build(cl)
+	if c.Wrap >= 10 && c.Wrap <= 1000 {
+		var sb strings.Builder
+		col := 0
+		for _, w := range strings.Fields(string(x)) {
+			if col > 0 && col+1+len(w) > c.Wrap {
+				sb.WriteByte('\n')
+				col = 0
+			} else if col > 0 {
+				sb.WriteByte(' ')
+				col++
+			}
+			sb.WriteString(w)
+			col += len(w)
+		}
+		sb.WriteByte('\n')
+		x = []byte(sb.String())
+	}
 	if len(c.Ts) > 0 {
 		ls, _, _ := applyXforms(splitLines(x), c.Ts)
 		x = joinLines(ls)
 	}
 	desc := fmt.Sprintf("threshold %v, X = %s%s", c.Thr, c.X.describe(), xformNames(c.Ts))
+	if c.Wrap >= 10 && c.Wrap <= 1000 {
+		desc += fmt.Sprintf(" re-wrapped at %d columns", c.Wrap)
+	}
 	if c.Pad >= 2 {
 		x = append(c11Pad(c.Pad), x...)
 		desc += fmt.Sprintf(" behind a filler line of %d bytes", c.Pad)
